@@ -10,7 +10,7 @@
 //! an identical file set and the pair converges without ever losing data.
 
 use super::archive::{archive_path, root_pair_hash, Archive};
-use super::meta::discover_local_fingerprints;
+use super::meta::discover_local_fingerprints_strict as discover_local_fingerprints;
 use super::reconcile::{reconcile, Action, ConflictKind, FpMap};
 use std::path::{Path, PathBuf};
 
